@@ -76,7 +76,13 @@ class HumanMessageSerializer:
                 continue
 
             if line.startswith("["):
-                cur_block = Block(re.search(r"\w+", line).group(0))
+                block_name = re.search(r"\w+", line).group(0)
+                # A block list that is present but holds no blocks (count 0 on the wire)
+                if re.search(r"#\s*EMPTY\s*$", line):
+                    msg.create_block_list(block_name)
+                    cur_block = None
+                    continue
+                cur_block = Block(block_name)
                 msg.add_block(cur_block)
             else:
                 expr_match = re.match(r"^\s*(\w+)\s*(=[|$]*)\s*(.*)$", line)
@@ -163,6 +169,9 @@ class HumanMessageSerializer:
             block_suffix = ""
             if template and template.get_block(block_name).block_type == MsgBlockType.MBT_VARIABLE:
                 block_suffix = '  # Variable'
+            if not block_list:
+                # Must stay visible, a present-but-empty block list serializes differently from a missing one
+                string += f"[{block_name}]  # EMPTY\n"
             for block_num, block in enumerate(block_list):
                 string += f"[{block_name}]{block_suffix}\n"
                 for var_name, val in block.items():
